@@ -38,6 +38,8 @@ class Contract:
         self.ghost_params = {k: parse_ty(v) for k, v in kw.pop("ghost_params", {}).items()}
         self.old_names = kw.pop("old_names", {})
         self.notes = kw.pop("notes", "")
+        self.options = kw.pop("options", {})
+        self.axioms = list(kw.pop("axioms", []))
         if kw:
             raise TypeError("unknown contract keys %s" % list(kw))
 
@@ -68,7 +70,7 @@ class FunDecl:
 
 
 class Lemma:
-    def __init__(self, name, vars, hyps, goal, props=(), by="z3", uses=(), heap_vars=()):
+    def __init__(self, name, vars, hyps, goal, props=(), by="z3", uses=(), axioms=()):
         self.name = name
         self.vars = [(n, parse_ty(t)) for n, t in vars]
         self.hyps = list(hyps)
@@ -76,15 +78,20 @@ class Lemma:
         self.props = list(props)
         self.by = by
         self.uses = list(uses)
+        self.axioms = list(axioms)
 
 
 class Axiom:
-    def __init__(self, name, vars, body, justification, trusted=True):
+    """closed formula over declared spec functions; assumed (quantified over heap arrays and vars) in the VCs of the
+    contracts that list it, and *proved* for every instance (function symbol -> defining macro) as a refinement obligation"""
+
+    def __init__(self, name, vars, body, instances=(), justification="", props=()):
         self.name = name
         self.vars = [(n, parse_ty(t)) for n, t in vars]
         self.body = body
+        self.instances = list(instances)      # list of {fun name: macro name}
         self.justification = justification
-        self.trusted = trusted
+        self.props = list(props)
 
 
 class Registry:
@@ -96,6 +103,7 @@ class Registry:
         self.lemmas = {}
         self.axioms = {}
         self.theories = {}
+        self.properties = {}
 
     # ---- API exposed to contract files
     def classdef(self, name, **kw):
@@ -117,6 +125,9 @@ class Registry:
 
     def axiom(self, name, **kw):
         self.axioms[name] = Axiom(name, **kw)
+
+    def prop(self, pid, **kw):
+        self.properties[pid] = kw
 
     # ---- lookups
     def class_chain(self, cname):
@@ -157,4 +168,4 @@ class Registry:
 
     def api(self):
         return {"classdef": self.classdef, "contract": self.contract, "define": self.define,
-                "declare_fun": self.declare_fun, "lemma": self.lemma, "axiom": self.axiom}
+                "declare_fun": self.declare_fun, "lemma": self.lemma, "axiom": self.axiom, "prop": self.prop}
